@@ -67,6 +67,8 @@ def timeoutOK (o : TObs) : Bool :=
   o.body.count Chunk.t408 ≤ 1 &&
   !(hasT && (hasH || hasR)) &&
   (!hasT || o.status == some Chunk.t408) &&
+  -- well-formed: no bytes that are nobody's document, and no 408 status line in front of somebody else's body
+  !o.body.contains Chunk.other && (o.status != some Chunk.t408 || hasT) &&
   (!o.hPanicked || o.recovered) &&
   (!o.hPanicked || hasH || hasT || o.status == some Chunk.rec500)
 
